@@ -307,6 +307,10 @@ class Func:
         self.locals = raw['locals']
         self.type = raw.get('type', '')
         self.blocks = {b['id']: b for b in raw.get('blocks', [])}
+        for b in self.blocks.values():
+            if b.get('noreturn'):
+                # clang links no-return blocks to EXIT; for path queries they end here
+                b['succ'] = []
         self.entry = raw.get('entry')
         self.exit = raw.get('exit')
         self._preds = None
@@ -464,6 +468,39 @@ class Func:
                 seen[t] = b
                 work.append(t)
         return True, []
+
+    def reaching_defs(self, bid, idx, var):
+        """Definitions (assign / inc-dec / decl nodes) of local `var` that may
+        reach element (bid, idx).  var is a stripped ('l'|'p', name)."""
+        def defs_in(ex):
+            out = []
+            for n in walk_own(ex):
+                if (is_assign(n) or is_incdec(n)) and strip(n[2]) == var:
+                    out.append(n)
+                elif n[0] == 'decl' and var[0] == 'l' and n[1] == var[1] and n[2] is not None:
+                    out.append(n)
+            return out
+        preds = self.preds()
+        found = []
+        seen = set()
+        work = [(bid, idx)]
+        while work:
+            b, upto = work.pop()
+            elems = self.blocks[b]['elems']
+            hit = False
+            for j in range(min(upto, len(elems)) - 1, -1, -1):
+                ds = defs_in(elems[j][1])
+                if ds:
+                    found.extend(ds)
+                    hit = True
+                    break
+            if hit:
+                continue
+            for p, l in preds.get(b, ()):
+                if p not in seen:
+                    seen.add(p)
+                    work.append((p, 1 << 30))
+        return found
 
     def reach_forward(self, start_blocks, edge_ok=None, block_stop=None):
         succ = self.succs()
@@ -645,6 +682,12 @@ class Program:
                             for n in walk_own(ex):
                                 if n[0] == 'call':
                                     cn = callee_name(n)
+                                    if cn is None:
+                                        ts, how = self.indirect_targets(f, n)
+                                        if how == 'slot' and ts and all(t in known for t in ts):
+                                            hit = True
+                                            break
+                                        continue
                                     t = self.resolve(f.unit, cn) if cn else None
                                     if t is not None and t in known:
                                         hit = True
@@ -1062,7 +1105,7 @@ def build_facts(repo=REPO, verbose=False):
         if r.returncode != 0 or not os.path.exists(tool):
             raise AnalysisBroken('fact extractor not built (run engine/build.sh)')
     key = tree_hash(repo)
-    cache_root = os.path.join(VERIF, '.cache')
+    cache_root = os.environ.get('ASL_CACHE') or os.path.join(VERIF, '.cache')
     os.makedirs(cache_root, exist_ok=True)
     cdir = os.path.join(cache_root, key)
     info_p = os.path.join(cdir, 'info.json')
@@ -1124,7 +1167,8 @@ def build_facts(repo=REPO, verbose=False):
         # prune old cache entries (keep the 3 most recent)
         ents = sorted((os.path.getmtime(os.path.join(cache_root, d)), d) for d in os.listdir(cache_root)
                       if os.path.isdir(os.path.join(cache_root, d)) and '.tmp' not in d)
-        for _, d in ents[:-3]:
-            shutil.rmtree(os.path.join(cache_root, d), ignore_errors=True)
+        for mt, d in ents[:-4]:
+            if time.time() - mt > 3600:
+                shutil.rmtree(os.path.join(cache_root, d), ignore_errors=True)
     info = json.load(open(info_p))
     return Facts(cdir, info['exes']), info
